@@ -221,4 +221,387 @@ theorem evalCondE_proj (l : List Int) (c : Cond) : ∀ (s : St) (b : Bool) (s' :
             simp only [if_true, List.mem_singleton, Prod.mk.injEq] at h2 ⊢
             exact ⟨h2.1, h2.2.1⟩
 
+theorem execE_proj (p : Stmt) : ∀ (l : List Int) (s : St) (f : Flow) (s' : St),
+    (f, s') ∈ exec p l s ↔ ∃ e, (f, s', e) ∈ execE p l s := by
+  induction p with
+  | skip => intro l s f s'; simp only [exec, execE]; grind
+  | seq a b iha ihb =>
+      intro l s f s'
+      simp only [exec, execE, List.mem_flatMap, mem_dedupFS, Prod.exists]
+      constructor
+      · rintro ⟨f1, s1, h1, h2⟩
+        obtain ⟨e1, he1⟩ := (iha l s f1 s1).1 h1
+        cases f1 with
+        | normal =>
+            simp only at h2
+            obtain ⟨e2, he2⟩ := (ihb l s1 f s').1 h2
+            exact ⟨e1 ++ e2, .normal, s1, e1, he1, List.mem_map.2 ⟨(f, s', e2), he2, rfl⟩⟩
+        | returned =>
+            simp only [List.mem_singleton, Prod.mk.injEq] at h2
+            obtain ⟨hf, hs⟩ := h2
+            subst hf hs
+            exact ⟨e1, .returned, _, e1, he1, by simp⟩
+        | stopped =>
+            simp only [List.mem_singleton, Prod.mk.injEq] at h2
+            obtain ⟨hf, hs⟩ := h2
+            subst hf hs
+            exact ⟨e1, .stopped, _, e1, he1, by simp⟩
+      · rintro ⟨e, f1, s1, e1, he1, h2⟩
+        refine ⟨f1, s1, (iha l s f1 s1).2 ⟨e1, he1⟩, ?_⟩
+        cases f1 with
+        | normal =>
+            simp only [List.mem_map, Prod.exists, Prod.mk.injEq] at h2 ⊢
+            obtain ⟨f2, s2, e2, he2, rfl, rfl, _⟩ := h2
+            exact (ihb l s1 f2 s2).2 ⟨e2, he2⟩
+        | returned =>
+            simp only [List.mem_singleton, Prod.mk.injEq] at h2 ⊢
+            exact ⟨h2.1, h2.2.1⟩
+        | stopped =>
+            simp only [List.mem_singleton, Prod.mk.injEq] at h2 ⊢
+            exact ⟨h2.1, h2.2.1⟩
+  | set v x =>
+      intro l s f s'
+      simp only [exec, execE]
+      cases evalExpr l s.vars x <;> grind
+  | ite c t e iht ihe =>
+      intro l s f s'
+      simp only [exec, execE, List.mem_flatMap, Prod.exists]
+      constructor
+      · rintro ⟨b, s1, h1, h2⟩
+        obtain ⟨ec, hec⟩ := (evalCondE_proj l c s b s1).1 h1
+        cases b with
+        | true =>
+            simp only [if_true] at h2
+            obtain ⟨e2, he2⟩ := (iht l s1 f s').1 h2
+            exact ⟨ec ++ e2, true, s1, ec, hec, by
+              rw [if_pos rfl]; exact List.mem_map.2 ⟨(f, s', e2), he2, rfl⟩⟩
+        | false =>
+            simp only [Bool.false_eq_true, if_false] at h2
+            obtain ⟨e2, he2⟩ := (ihe l s1 f s').1 h2
+            exact ⟨ec ++ e2, false, s1, ec, hec, by
+              rw [if_neg (by simp)]; exact List.mem_map.2 ⟨(f, s', e2), he2, rfl⟩⟩
+      · rintro ⟨e0, b, s1, ec, hec, h2⟩
+        refine ⟨b, s1, (evalCondE_proj l c s b s1).2 ⟨ec, hec⟩, ?_⟩
+        cases b with
+        | true =>
+            simp only [if_true, List.mem_map, Prod.exists, Prod.mk.injEq] at h2 ⊢
+            obtain ⟨f2, s2, e2, he2, rfl, rfl, _⟩ := h2
+            exact (iht l s1 f2 s2).2 ⟨e2, he2⟩
+        | false =>
+            simp only [Bool.false_eq_true, if_false, List.mem_map, Prod.exists, Prod.mk.injEq] at h2 ⊢
+            obtain ⟨f2, s2, e2, he2, rfl, rfl, _⟩ := h2
+            exact (ihe l s1 f2 s2).2 ⟨e2, he2⟩
+  | choose a b iha ihb =>
+      intro l s f s'
+      simp only [exec, execE, List.mem_append, iha l s f s', ihb l s f s']
+      constructor
+      · rintro (⟨e, h⟩ | ⟨e, h⟩)
+        · exact ⟨e, Or.inl h⟩
+        · exact ⟨e, Or.inr h⟩
+      · rintro ⟨e, h | h⟩
+        · exact Or.inl ⟨e, h⟩
+        · exact Or.inr ⟨e, h⟩
+  | forSetting loc vals body ih =>
+      intro l s f s'
+      simp only [exec, execE, List.mem_flatMap]
+      constructor
+      · rintro ⟨v, hv, h⟩
+        obtain ⟨e, he⟩ := (ih (l ++ [v]) s f s').1 h
+        exact ⟨e, v, hv, he⟩
+      · rintro ⟨e, v, hv, he⟩
+        exact ⟨v, hv, (ih (l ++ [v]) s f s').2 ⟨e, he⟩⟩
+  | delay m => intro l s f s'; simp only [exec, execE]; grind
+  | cancel => intro l s f s'; simp only [exec, execE]; grind
+  | selfTell m => intro l s f s'; simp only [exec, execE]; grind
+  | ret => intro l s f s'; simp only [exec, execE]; grind
+  | stopRepeat => intro l s f s'; simp only [exec, execE]; grind
+  | doRepeat body poll ih =>
+      intro l s f s'
+      simp only [exec, execE, List.mem_map, Prod.exists]
+      constructor
+      · rintro ⟨f1, s1, h1, h2⟩
+        obtain ⟨e1, he1⟩ := (ih l s f1 s1).1 h1
+        refine ⟨e1, f1, s1, e1, he1, ?_⟩
+        cases f1 <;> simp_all
+      · rintro ⟨e, f1, s1, e1, he1, h2⟩
+        refine ⟨f1, s1, (ih l s f1 s1).2 ⟨e1, he1⟩, ?_⟩
+        cases f1 <;> simp_all
+  | emit t => intro l s f s'; simp only [exec, execE]; grind
+  | scope body ih =>
+      intro l s f s'
+      simp only [exec, execE, List.mem_map, Prod.exists]
+      constructor
+      · rintro ⟨f1, s1, h1, h2⟩
+        obtain ⟨e1, he1⟩ := (ih l s f1 s1).1 h1
+        refine ⟨e1, f1, s1, e1, he1, ?_⟩
+        cases f1 <;> simp_all
+      · rintro ⟨e, f1, s1, e1, he1, h2⟩
+        refine ⟨f1, s1, (ih l s f1 s1).2 ⟨e1, he1⟩, ?_⟩
+        cases f1 <;> simp_all
+  | «opaque» t => intro l s f s'; simp only [exec, execE]; grind
+
+theorem runSeqE_proj_aux (cbs : List Stmt) (ids : List Nat) : ∀ (acc : List St) (s' : St),
+    s' ∈ ids.foldl (fun acc i => dedupS (acc.flatMap fun st =>
+        (exec (cbs.getD i (.opaque 999)) [] st).map (·.2))) acc ↔
+      ∃ s0 ∈ acc, ∃ e, (s', e) ∈ runSeqE cbs ids s0 := by
+  induction ids with
+  | nil =>
+      intro acc s'
+      simp only [List.foldl_nil, runSeqE, List.mem_singleton, Prod.mk.injEq]
+      constructor
+      · intro h; exact ⟨s', h, [], rfl, rfl⟩
+      · rintro ⟨s0, h, e, rfl, _⟩; exact h
+  | cons i is ih =>
+      intro acc s'
+      simp only [List.foldl_cons]
+      rw [ih]
+      simp only [mem_dedupS, List.mem_flatMap, List.mem_map, Prod.exists, runSeqE]
+      constructor
+      · rintro ⟨s1, ⟨s0, h0, f, s1', hx, rfl⟩, e2, he2⟩
+        obtain ⟨e1, he1⟩ := (execE_proj _ [] s0 f s1').1 hx
+        exact ⟨s0, h0, e1 ++ e2, f, s1', e1, he1, s', e2, he2, rfl⟩
+      · rintro ⟨s0, h0, e, f, s1, e1, he1, s2, e2, he2, h⟩
+        simp only [Prod.mk.injEq] at h
+        obtain ⟨rfl, _⟩ := h
+        exact ⟨s1, ⟨s0, h0, f, s1, (execE_proj _ [] s0 f s1).2 ⟨e1, he1⟩, rfl⟩, e2, he2⟩
+
+theorem runSeqE_proj (cbs : List Stmt) (ids : List Nat) (s s' : St) :
+    s' ∈ runSeq cbs ids s ↔ ∃ e, (s', e) ∈ runSeqE cbs ids s := by
+  simp only [runSeq]
+  rw [runSeqE_proj_aux]
+  simp
+
+theorem fireE_proj (D : ActorDesc) (t : MsgId) (s s' : St) :
+    s' ∈ fire D t s ↔ ∃ e, (s', e) ∈ fireE D t s := by
+  simp only [fire, fireE, List.mem_append, List.mem_flatMap, List.mem_map, Prod.exists, runSeqE_proj]
+  constructor
+  · rintro (h | ⟨r, hr, s1, ⟨e1, he1⟩, e2, he2⟩)
+    · refine ⟨[], Or.inl ?_⟩
+      by_cases hc : D.total.contains (s.leaf, t) = true
+      · simp only [hc, if_true, List.not_mem_nil] at h
+      · simp only [hc, Bool.false_eq_true, if_false, List.mem_singleton] at h ⊢
+        rw [h]
+    · exact ⟨e1 ++ e2, Or.inr ⟨r, hr, s1, e1, he1, s', e2, he2, rfl⟩⟩
+  · rintro ⟨e, h | ⟨r, hr, s1, e1, he1, s2, e2, he2, h⟩⟩
+    · left
+      by_cases hc : D.total.contains (s.leaf, t) = true
+      · simp only [hc, if_true, List.not_mem_nil] at h
+      · simp only [hc, Bool.false_eq_true, if_false, List.mem_singleton, Prod.mk.injEq] at h ⊢
+        exact h.1
+    · simp only [Prod.mk.injEq] at h
+      obtain ⟨rfl, _⟩ := h
+      exact Or.inr ⟨r, hr, s1, ⟨e1, he1⟩, e2, he2⟩
+
+theorem callE_proj (D : ActorDesc) (m : MsgId) (s s' : St) :
+    s' ∈ call D m s ↔ ∃ e, (s', e) ∈ callE D m s := by
+  simp only [call, callE]
+  by_cases ht : D.triggers.contains m = true
+  · simp only [ht, if_true]
+    exact fireE_proj D m s s'
+  · simp only [ht, Bool.false_eq_true, if_false]
+    cases hf : D.methods.find? (·.1 == m) with
+    | none => simp
+    | some mp =>
+        obtain ⟨m', p⟩ := mp
+        simp only [List.mem_map, Prod.exists]
+        constructor
+        · rintro ⟨f, s1, h, rfl⟩
+          obtain ⟨e, he⟩ := (execE_proj _ [] s f s1).1 h
+          exact ⟨e, f, s1, e, he, rfl⟩
+        · rintro ⟨e, f, s1, e1, he, h⟩
+          simp only [Prod.mk.injEq] at h
+          obtain ⟨rfl, _⟩ := h
+          exact ⟨f, s1, (execE_proj _ [] s f s1).2 ⟨e1, he⟩, rfl⟩
+
+/-- **Projection.** Erasing the effects of `stepE` gives exactly the outcomes of `step`. -/
+theorem stepE_proj (D : ActorDesc) (s : St) (m : Msg) (s' : St) :
+    s' ∈ step D s m ↔ ∃ e, (s', e) ∈ stepE D s m := by
+  cases m with
+  | plain m =>
+      simp only [step, stepE, List.mem_map, Prod.exists, callE_proj]
+      constructor
+      · rintro ⟨s1, ⟨e, he⟩, rfl⟩
+        exact ⟨e, s1, e, he, rfl⟩
+      · rintro ⟨e, s1, e1, he, h⟩
+        simp only [Prod.mk.injEq] at h
+        exact ⟨s1, ⟨e1, he⟩, h.1⟩
+  | delayed m =>
+      simp only [step, stepE]
+      split
+      · simp only [List.mem_map, Prod.exists, callE_proj]
+        constructor
+        · rintro ⟨s1, ⟨e, he⟩, rfl⟩
+          exact ⟨e, s1, e, he, rfl⟩
+        · rintro ⟨e, s1, e1, he, h⟩
+          simp only [Prod.mk.injEq] at h
+          exact ⟨s1, ⟨e1, he⟩, h.1⟩
+      · simp
+
+theorem stepE_sound {D : ActorDesc} {s : St} {m : Msg} {s' : St} {e : List Eff}
+    (h : (s', e) ∈ stepE D s m) : s' ∈ step D s m := (stepE_proj D s m s').2 ⟨e, h⟩
+
+theorem stepE_complete {D : ActorDesc} {s : St} {m : Msg} {s' : St}
+    (h : s' ∈ step D s m) : ∃ e, (s', e) ∈ stepE D s m := (stepE_proj D s m s').1 h
+
+/-! ## the composed system: generated master + generated slave, one tracked ghost variable -/
+
+/-- One master/slave pair.  Everything except the two generated descriptions is *reading instructions* for the
+    master's effects: which variable is the master's knowledge about X, which of its values mean "X is known to be
+    halted", which emitted tags are tells to X (with the message X receives). -/
+structure CSpec where
+  DM : ActorDesc                  -- generated master
+  DX : ActorDesc                  -- generated slave
+  v : VarId                       -- the master's ghost variable about X
+  isG : Int → Bool                -- its values that mean "X halted" (told a halt-class message last / answered is_halt)
+  tells : List (Nat × Msg)        -- emitted tag ↦ message queued for X (ALL the master's tells of triggers to X)
+  isHaltMsg : Msg → Bool          -- halt-class messages of X
+  isHalt : St → Bool              -- X's halted states
+  isStart : Msg → Bool            -- messages that can take X out of its halted states
+  allowed : List LeafId           -- master phases in which X's own start guard can be true
+
+/-- the value a refinement list finally gives to variable `v`, if it assigns it at all -/
+def lastAssign (v : VarId) : List (VarId × Int) → Option Int
+  | [] => none
+  | (w, x) :: t =>
+      match lastAssign v t with
+      | some y => some y
+      | none => if w = v then some x else none
+
+/-- is this question an `X.is_halt()`: does its TRUE answer make the ghost variable a "known halted" value? -/
+def askHalting (S : CSpec) (t : List (VarId × Int)) : Bool :=
+  match lastAssign S.v t with
+  | some x => S.isG x
+  | none => false
+
+def noMaster (l : List (Bool × Msg)) : Prop := ∀ e ∈ l, e.1 = false
+
+structure CSt where
+  m : St                          -- master (state after its current / last handler)
+  x : St                          -- slave
+  inbox : List (Bool × Msg)       -- slave inbox: (from the master?, message); the head is served next
+  todo : List Eff                 -- effects of the master's current handler not yet performed ([] = between handlers)
+  deriving Repr
+
+inductive CStep (S : CSpec) : CSt → CSt → Prop
+  /-- the master takes the next message of ITS alphabet: one outcome of the generated handler with its effects -/
+  | mBegin (g : CSt) (msg : Msg) (m' : St) (effs : List Eff) (hidle : g.todo = [])
+      (hmsg : msg ∈ allMsgs S.DM) (h : (m', effs) ∈ stepE S.DM g.m msg) :
+      CStep S g { g with m := m', todo := effs }
+  /-- next effect: a tell to X -/
+  | mTell (g : CSt) (t : Nat) (rest : List Eff) (msg : Msg) (h : g.todo = .emit t :: rest)
+      (ht : S.tells.lookup t = some msg) :
+      CStep S g { g with inbox := g.inbox ++ [(true, msg)], todo := rest }
+  /-- next effect: any other emitted tag (device writes, publishes, tells to other actors) -/
+  | mEmit (g : CSt) (t : Nat) (rest : List Eff) (h : g.todo = .emit t :: rest) (ht : S.tells.lookup t = none) :
+      CStep S g { g with todo := rest }
+  /-- next effect: a question answered TRUE; if it is `X.is_halt()` this needs X's inbox free of master messages
+      and X halted -/
+  | mAskTrue (g : CSt) (t f : List (VarId × Int)) (rest : List Eff) (h : g.todo = .ask true t f :: rest)
+      (hq : askHalting S t = true → noMaster g.inbox ∧ S.isHalt g.x = true) :
+      CStep S g { g with todo := rest }
+  /-- next effect: a question answered FALSE (or timed out): always possible -/
+  | mAskFalse (g : CSt) (t f : List (VarId × Int)) (rest : List Eff) (h : g.todo = .ask false t f :: rest) :
+      CStep S g { g with todo := rest }
+  /-- anybody else (dispatcher, X's own timers and self-tells, third actors, the master's untracked calls) queues
+      a message for X -/
+  | other (g : CSt) (m : Msg) (hm : m ∈ allMsgs S.DX) :
+      CStep S g { g with inbox := g.inbox ++ [(false, m)] }
+  /-- X serves the head of its inbox with ITS generated `step`; a foreign start message is guarded by a question
+      to the master, answered between two master handlers: refused unless the master's phase is allowed -/
+  | deliver (g : CSt) (e : Bool × Msg) (rest : List (Bool × Msg)) (x' : St)
+      (h : g.inbox = e :: rest) (hm : e.2 ∈ allMsgs S.DX)
+      (hs : if e.1 = false ∧ S.isStart e.2 = true then
+              g.todo = [] ∧ (if S.allowed.contains g.m.leaf then x' ∈ step S.DX g.x e.2 else x' = g.x)
+            else x' ∈ step S.DX g.x e.2) :
+      CStep S g { g with x := x', inbox := rest }
+
+def cinit (S : CSpec) : CSt := { m := initSt S.DM, x := initSt S.DX, inbox := [], todo := [] }
+
+inductive CReach (S : CSpec) : CSt → Prop
+  | init : CReach S (cinit S)
+  | step {g g' : CSt} : CReach S g → CStep S g g' → CReach S g'
+
+/-- abstract reading of one effect: after it, is the LAST thing the master did towards X a halt-class tell or
+    an observed `is_halt() = True`? -/
+def ghost1 (S : CSpec) (a : Bool) : Eff → Bool
+  | .emit t =>
+      match S.tells.lookup t with
+      | some m => S.isHaltMsg m
+      | none => a
+  | .ask true t _ => a || askHalting S t
+  | .ask false _ _ => a
+
+def ghostAfter (S : CSpec) (a : Bool) (effs : List Eff) : Bool := effs.foldl (ghost1 S) a
+
+/-! ## an executable scheduler (used to exhibit concrete composed runs) -/
+
+inductive Act
+  /-- the master handles `msg`; of the possible outcomes of the generated handler take the first satisfying `pick` -/
+  | master (msg : Msg) (pick : St × List Eff → Bool)
+  /-- the master performs the next effect of its handler (a question is answered TRUE whenever that is possible) -/
+  | eff
+  /-- the master's next effect is a question and it is answered FALSE -/
+  | effFalse
+  /-- the master performs all the remaining effects of its handler (questions answered TRUE when possible) -/
+  | drain
+  /-- a third party queues `m` for the slave -/
+  | other (m : Msg)
+  /-- the slave serves the head of its inbox; of the possible outcomes take the first satisfying `pick` -/
+  | deliver (pick : St → Bool)
+
+/-- the master performs the next effect of its handler -/
+def eff1 (S : CSpec) (g : CSt) : Option CSt :=
+  match g.todo with
+  | [] => none
+  | .emit t :: rest =>
+      match S.tells.lookup t with
+      | some msg => some { g with inbox := g.inbox ++ [(true, msg)], todo := rest }
+      | none => some { g with todo := rest }
+  | .ask true t _ :: rest =>
+      if !askHalting S t || (g.inbox.all (fun e => !e.1) && S.isHalt g.x) then some { g with todo := rest }
+      else none
+  | .ask false _ _ :: rest => some { g with todo := rest }
+
+def drainN (S : CSpec) : Nat → CSt → Option CSt
+  | 0, g => some g
+  | n + 1, g =>
+      if g.todo.isEmpty then some g
+      else match eff1 S g with
+        | some g' => drainN S n g'
+        | none => none
+
+def act (S : CSpec) (g : CSt) : Act → Option CSt
+  | .master msg pick =>
+      if g.todo.isEmpty && (allMsgs S.DM).contains msg then
+        ((stepE S.DM g.m msg).find? pick).map fun (m', effs) => { g with m := m', todo := effs }
+      else none
+  | .eff => eff1 S g
+  | .drain => drainN S g.todo.length g
+  | .effFalse =>
+      match g.todo with
+      | .ask false _ _ :: rest => some { g with todo := rest }
+      | _ => none
+  | .other m =>
+      if (allMsgs S.DX).contains m then some { g with inbox := g.inbox ++ [(false, m)] } else none
+  | .deliver pick =>
+      match g.inbox with
+      | [] => none
+      | e :: rest =>
+          if (allMsgs S.DX).contains e.2 then
+            if !e.1 && S.isStart e.2 then
+              if g.todo.isEmpty then
+                if S.allowed.contains g.m.leaf then
+                  ((step S.DX g.x e.2).find? pick).map fun x' => { g with x := x', inbox := rest }
+                else some { g with inbox := rest }
+              else none
+            else ((step S.DX g.x e.2).find? pick).map fun x' => { g with x := x', inbox := rest }
+          else none
+
+def run (S : CSpec) : List Act → CSt → Option CSt
+  | [], g => some g
+  | a :: as, g =>
+      match act S g a with
+      | some g' => run S as g'
+      | none => none
+
 end Poupool.Compose
